@@ -215,3 +215,29 @@ func Any(t *rapid.T) ([]byte, string) {
 		return rapid.SliceOfN(rapid.Byte(), 0, 64).Draw(t, "bytes"), "bytes"
 	}
 }
+
+// SemanticErrorProgram draws a program that is syntactically well-formed but
+// that the grammars reject with their own reports (by-reference foreach key,
+// trait with extends/implements), mixed with ordinary statements.
+func SemanticErrorProgram(t *rapid.T) []byte {
+	subjects := []string{"$a", "$a->b", "[1, 2]", "array(1)", "f()", "$a + $b", "A::b()", "(array) $x", "new ArrayObject", "$a[0]", "clone $a", "\"s\"", "$a ?: $b"}
+	values := []string{"$v", "&$v", "& $v", "list($x, $y)", "$o->p", "$v[0]"}
+	bodies := []string{"{}", ";", "echo 1;", ": endforeach;", "{ foreach ($q as &$kk => $vv) {} }", "{ $a = 1; }"}
+	amp := []string{"&", "& ", " &  "}
+	var b []byte
+	b = append(b, "<?php "...)
+	n := rapid.IntRange(1, 3).Draw(t, "n")
+	for i := 0; i < n; i++ {
+		switch rapid.IntRange(0, 5).Draw(t, "kind") {
+		case 0, 1, 2:
+			b = append(b, ("foreach (" + rapid.SampledFrom(subjects).Draw(t, "subject") + " as " + rapid.SampledFrom(amp).Draw(t, "amp") + "$k => " + rapid.SampledFrom(values).Draw(t, "value") + ") " + rapid.SampledFrom(bodies).Draw(t, "body") + " ")...)
+		case 3:
+			b = append(b, ("trait T" + string(rune('0'+i)) + " extends A { } ")...)
+		case 4:
+			b = append(b, ("trait T" + string(rune('0'+i)) + " implements I, J { function f() {} } ")...)
+		default:
+			b = append(b, ("$x" + string(rune('0'+i)) + " = " + rapid.SampledFrom(subjects).Draw(t, "subject") + "; ")...)
+		}
+	}
+	return b
+}
